@@ -695,8 +695,36 @@ pub fn generate(tier: &str, rng: &mut Rng) -> Vec<String> {
     // arbitrary wire values under a -bin name; equality of two wire values
     let nw = if thorough { 60000 } else { 3000 };
     for _ in 0..nw {
-        let n = rng.range(0, 10) as usize;
-        let w: Vec<u8> = (0..n).map(|_| *rng.pick(b"ABCDwxyz0189+/==-_ ")).collect();
+        let w: Vec<u8> = if rng.chance(1, 2) {
+            let n = rng.range(0, 10) as usize;
+            (0..n).map(|_| *rng.pick(b"ABCDwxyz0189+/==-_ ")).collect()
+        } else {
+            // a valid encoding (padded or not) with at most one small mutation
+            use base64::Engine;
+            let v = gen_bin_value(rng);
+            let mut w = if rng.chance(1, 2) {
+                base64::engine::general_purpose::STANDARD.encode(&v).into_bytes()
+            } else {
+                base64::engine::general_purpose::STANDARD_NO_PAD.encode(&v).into_bytes()
+            };
+            match rng.below(6) {
+                0 if !w.is_empty() => {
+                    let i = rng.below(w.len() as u64) as usize;
+                    w[i] = *rng.pick(b"ABQgw/+=-_ ");
+                }
+                1 if !w.is_empty() => {
+                    let i = rng.below(w.len() as u64) as usize;
+                    w.remove(i);
+                }
+                2 => w.push(b'='),
+                3 => {
+                    let i = rng.below(w.len() as u64 + 1) as usize;
+                    w.insert(i, *rng.pick(b"AQ="));
+                }
+                _ => {}
+            }
+            w
+        };
         out.push(format!("binw {}", hex(&w)));
         let n = rng.range(0, 6) as usize;
         let a: Vec<u8> = (0..n).map(|_| *rng.pick(b"AQgw=")).collect();
